@@ -199,7 +199,8 @@ Inductive msg :=
 | FromErc20 (sender receiver : acct) (denom : name) (amt : Z)
 | SetParams (auth : acct) (tax ratio base : Z) (enable beacon : bool)
 | EvmMode (m : Z)
-| HookToNative (c : Z) (from to : acct) (amt : Z).
+| HookToNative (c : Z) (from to : acct) (amt : Z)
+| UpgradeErc20 (auth : acct) (impl : Z).          (* impl < 0: not a hex address *)
 
 (** ValidateBasic of each message *)
 Definition effective_max (max initial : Z) (mintable : bool) : Z :=
@@ -209,7 +210,7 @@ Definition validate_basic (m : msg) : bool :=
   match m with
   | Issue owner sym minu nm scale initial max mintable =>
       valid_addr owner && valid_tname nm && valid_sym sym && valid_sym minu
-      && (initial <=? MAXINIT) && negb (effective_max max initial mintable <? initial) && (scale <=? 18)
+      && (initial <=? MAXINIT) && negb (effective_max max initial mintable <? initial) && (0 <=? scale) && (scale <=? 18)
   | Edit owner sym nm _ _ => valid_addr owner && valid_tname nm && valid_sym sym
   | Mint owner receiver denom amt =>
       valid_addr owner && ((receiver =? -2) || valid_addr receiver) && (0 <? amt) && valid_sym denom
@@ -218,13 +219,15 @@ Definition validate_basic (m : msg) : bool :=
   | SwapFee sender receiver denom amt =>
       valid_addr sender && ((receiver =? -2) || valid_addr receiver) && (0 <? amt) && valid_sym denom
   | Deploy auth nm sym minu scale =>
-      valid_addr auth && valid_tname nm && (scale <=? 18) && valid_erc20_name minu && valid_erc20_name sym
+      valid_addr auth && valid_tname nm && (0 <=? scale) && (scale <=? 18) && valid_erc20_name minu && valid_erc20_name sym
   | ToErc20 sender receiver denom amt => valid_addr sender && valid_addr receiver && valid_sdk_denom denom && (0 <? amt)
   | FromErc20 sender receiver denom amt => valid_addr sender && valid_addr receiver && valid_sdk_denom denom && (0 <? amt)
   | SetParams auth tax ratio base _ _ =>
       valid_addr auth && (0 <=? tax) && (tax <=? P18) && (0 <=? ratio) && (ratio <=? P18) && (0 <=? base)
+      && (base <? 2 ^ 195)   (* [fix:] of the params group: at most 195 bits *)
   | EvmMode _ => true
   | HookToNative _ from _ amt => valid_addr from && (0 <=? amt)
+  | UpgradeErc20 auth impl => valid_addr auth && (0 <=? impl)
   end.
 
 (** msgServer.IssueToken + Keeper.IssueToken + AddToken/assertTokenValid *)
@@ -320,6 +323,8 @@ Definition do_swapfee (s : state) sender receiver denom amt : res state :=
             match token_by_minunit s target with
             | None => RRej
             | Some tm =>
+                if lossless_overflows amt ratio (t_scale tb) (t_scale tm) then RAbort   (* LegacyDec "Int overflow" panic *)
+                else
                 let '(b, m) := lossless_swap amt ratio (t_scale tb) (t_scale tm) in
                 if negb (coin_ok b) || negb (coin_ok m) then RAbort
                 else
@@ -412,6 +417,15 @@ Definition do_hook (s : state) c from to amt : res state :=
         end
     end.
 
+(** msgServer.UpgradeERC20 + Keeper.UpgradeERC20: the beacon's upgradeTo is called; balances held by
+    the proxies are not touched (EVM double: mode 8 = the call reverts) *)
+Definition do_upgrade (s : state) auth : res state :=
+  if negb (auth =? GOV) then RRej
+  else if negb (p_erc20 (pars s)) then RRej
+  else if negb (p_beacon (pars s)) then RRej
+  else if evm_mode s =? 8 then RRej
+  else ROk s.
+
 Definition handle (s : state) (m : msg) : res state :=
   match m with
   | Issue owner sym minu nm scale initial max mintable => do_issue s owner sym minu nm scale initial max mintable
@@ -426,6 +440,7 @@ Definition handle (s : state) (m : msg) : res state :=
   | SetParams auth tax ratio base enable beacon => do_set_params s auth tax ratio base enable beacon
   | EvmMode m => ROk (upd_mode s m)
   | HookToNative c from to amt => do_hook s c from to amt
+  | UpgradeErc20 auth _ => do_upgrade s auth
   end.
 
 (** one message = one transaction: ValidateBasic, then the handler; a failure changes nothing *)
